@@ -251,6 +251,30 @@ def run_crosshair_ob(ob: Ob, workdir: Path, exclude: List[str]) -> Verdict:
     return v
 
 
+def run_python_ob(ob: Ob, exclude: List[str]) -> Verdict:
+    """engine 'python': module.func(exclude) -> dict(status, detail, cex, paths, distinct, samples, extra) runs in its own
+    interpreter (z3's Python API is not thread-safe inside the driver)."""
+    code = ('import sys, json, importlib\n'
+            'm = importlib.import_module(sys.argv[1])\n'
+            'r = getattr(m, sys.argv[2])(json.loads(sys.argv[3]))\n'
+            'print("\\nPYOB-RESULT " + json.dumps(r, default=repr))\n')
+    e = dict(os.environ)
+    e.update(ob.env)
+    e['PYTHONPATH'] = os.pathsep.join([str(VERIF)] + ([str(REPO)] if str(REPO) != '/repo' else []) + [e.get('PYTHONPATH', '')])
+    t0 = time.time()
+    try:
+        p = subprocess.run([VENV_PY, '-c', code, ob.module, ob.func, json.dumps(exclude)], capture_output=True, text=True, env=e,
+                           timeout=ob.timeout, cwd=str(VERIF))
+    except subprocess.TimeoutExpired:
+        return Verdict('inconclusive', f'timeout after {ob.timeout}s', solver_s=time.time() - t0)
+    for l in p.stdout.splitlines():
+        if l.startswith('PYOB-RESULT '):
+            r = json.loads(l[len('PYOB-RESULT '):])
+            return Verdict(r.get('status', 'inconclusive'), r.get('detail', ''), r.get('cex'), round(r.get('solver_s', time.time() - t0), 2),
+                           r.get('paths', 0), r.get('samples', []), r.get('distinct', 0), r.get('extra', {}))
+    return Verdict('inconclusive', f'engine error rc={p.returncode}: {p.stdout[-500:]} {p.stderr[-1500:]}', solver_s=time.time() - t0)
+
+
 def make_twin(ob: Ob, workdir: Path) -> Optional[Ob]:
     """Reachability witness: same harness, same preconditions, `post: not _` must be refuted,
     i.e. some input satisfying the preconditions runs to the end with the assertion holding."""
@@ -371,10 +395,7 @@ def run_property(prop: str, tier: str, obligations: List[Ob], explanation: str, 
             if ob.engine == 'crosshair':
                 v = run_crosshair_ob(ob, workdir, exclude)
             else:
-                try:
-                    v = ob.run(exclude) if _wants_exclude(ob.run) else ob.run()
-                except Exception as e:
-                    v = Verdict('inconclusive', f'engine error: {e!r}\n{traceback.format_exc()[-2000:]}')
+                v = run_python_ob(ob, exclude)
             total_s += v.solver_s
             if v.status == 'refuted':
                 fid = None
